@@ -500,6 +500,87 @@ impl Read for UniReader<'_> {
     }
 }
 
+/// Text signatures requested from the message builder on every route (plain, SEIPDv1, SEIPDv2;
+/// `sign_text` called before or after the transition to an encrypting builder): the signature
+/// that comes out is a text signature over the canonical form of the literal data.
+#[derive(Clone, Debug, Hash, Serialize, Deserialize)]
+pub struct RouteCase {
+    pub s: Vec<u8>,
+    /// 0 plain, 1 SEIPDv1, 2 SEIPDv2
+    pub enc: u8,
+    /// true: sign_text() before seipd_v1()/seipd_v2()
+    pub early: bool,
+}
+
+fn run_route(c: &RouteCase) -> Outcome {
+    use pgp::composed::{Message, MessageBuilder};
+    use pgp::crypto::{aead::{AeadAlgorithm, ChunkSize}, sym::SymmetricKeyAlgorithm};
+    use std::io::Read as _;
+    let cert = common::cert(KeyKind::Ed25519V4, 1);
+    let key = &cert.primary_key;
+    let pk = key.public_key();
+    let pw = Password::from("route");
+    let what = format!("payload \"{}\" route {} sign_text {}", esc(&c.s), ["plain", "SEIPDv1", "SEIPDv2"][c.enc as usize], if c.early { "before the transition" } else { "after the transition" });
+    let built: pgp::errors::Result<Vec<u8>> = (|| {
+        let mut b = MessageBuilder::from_bytes("", c.s.clone());
+        if c.early || c.enc == 0 {
+            b.sign_text();
+            b.sign(key, Password::empty(), HashAlgorithm::Sha256);
+        }
+        match c.enc {
+            0 => b.to_vec(crate::engine::rng(3)),
+            1 => {
+                let mut b = b.seipd_v1(crate::engine::rng(4), SymmetricKeyAlgorithm::AES128);
+                if !c.early {
+                    b.sign_text();
+                    b.sign(key, Password::empty(), HashAlgorithm::Sha256);
+                }
+                b.encrypt_with_password(pgp::types::StringToKey::new_default(crate::engine::rng(5)), &pw)?;
+                b.to_vec(crate::engine::rng(3))
+            }
+            _ => {
+                let mut b = b.seipd_v2(crate::engine::rng(4), SymmetricKeyAlgorithm::AES128, AeadAlgorithm::Ocb, ChunkSize::C64B);
+                if !c.early {
+                    b.sign_text();
+                    b.sign(key, Password::empty(), HashAlgorithm::Sha256);
+                }
+                b.encrypt_with_password(crate::engine::rng(6), pgp::types::StringToKey::new_default(crate::engine::rng(5)), &pw)?;
+                b.to_vec(crate::engine::rng(3))
+            }
+        }
+    })();
+    let bytes = match built {
+        Ok(b) => b,
+        Err(e) => return Outcome::bad("C14:builder-route:build-error", format!("{what}: {e}")),
+    };
+    let opened = (|| -> Result<pgp::packet::Signature, String> {
+        let m = Message::from_bytes(&bytes[..]).map_err(|e| e.to_string())?;
+        let mut m = if c.enc == 0 { m } else { m.decrypt_with_password(&pw).map_err(|e| e.to_string())? };
+        let mut sink = Vec::new();
+        m.read_to_end(&mut sink).map_err(|e| e.to_string())?;
+        if sink != c.s {
+            return Err("payload differs".into());
+        }
+        m.verify(pk).map(|s| s.clone()).map_err(|e| format!("inline verification: {e}"))
+    })();
+    let sig = match opened {
+        Ok(s) => s,
+        Err(e) => return Outcome::bad("C14:builder-route:own-message-rejected", format!("{what}: {e}")),
+    };
+    let mut o = Outcome::ok("text-signature-over-canonical-form");
+    if sig.typ() != Some(pgp::packet::SignatureType::Text) {
+        o.push("C14:builder-route:signature-type-not-text", format!("{what}: the signature is of type {:?}", sig.typ()));
+    }
+    // the extracted signature is a text signature: it verifies over every equivalent form
+    for t in [c.s.clone(), canon(&c.s)] {
+        if let Err(e) = sig.verify(pk, &t[..]) {
+            o.push("C14:builder-route:extracted-signature-does-not-verify-over-equivalent-text", format!("{what}: over \"{}\": {e}", esc(&t)));
+            break;
+        }
+    }
+    o
+}
+
 pub fn check(ctx: &Ctx) {
     let l = ctx.tier.pick(8, 12);
     let strings = common::all_strings(&ABC, l);
@@ -555,6 +636,25 @@ pub fn check(ctx: &Ctx) {
         pairs.into_par_iter(),
         run_pair,
     );
+    let rstrings = common::all_strings(&ABC, ctx.tier.pick(4, 6));
+    let mut rc = Vec::new();
+    for s in &rstrings {
+        for enc in 0..3u8 {
+            for early in [false, true] {
+                if enc == 0 && early {
+                    continue;
+                }
+                rc.push(RouteCase { s: s.clone(), enc, early });
+            }
+        }
+    }
+    ctx.run_space(
+        "builder_routes",
+        true,
+        "all strings over {CR,LF,x} of length <= 4 (thorough 6) as a binary literal signed with sign_text() through MessageBuilder on the routes {plain, SEIPDv1, SEIPDv2} x {sign_text before, after the transition to the encrypting builder}: the inline signature verifies, is of type Text, and verifies detached over the payload and over its canonical form",
+        rc.into_par_iter(),
+        run_route,
+    );
     let ws = common::all_strings(&ABC, ctx.tier.pick(4, 5));
     let mut bc = Vec::new();
     for &boundary in &[512usize, 1024, 1536, 8192, 16384] {
@@ -591,6 +691,7 @@ pub fn replay(space: &str, case: &Value) -> Option<Outcome> {
         "normalized_reader" => replay_as(case, run_reader),
         "normalize_lines" => replay_as(case, run_in_memory),
         "sign_verify_pairs" => replay_as(case, run_pair),
+        "builder_routes" => replay_as(case, run_route),
         "window_edges" => replay_as(case, run_boundary),
         _ => None,
     }
